@@ -35,7 +35,7 @@ const (
 	THash
 )
 
-var numLits = []string{"0", "1", "2", "3", "4", "5", "7", "10", "12", "0.5", "1.5", "2.25", "0.75", "100"}
+var numLits = []string{"0", "1", "2", "3", "4", "5", "7", "10", "12", "0.5", "1.5", "2.25", "0.75", "100", "010", "012", "0017", "00"}
 var strLits = []string{"a", "b", "bc", "Hello", "x y", "", "12", "3", "abc", "é", "A-1", "z",
 	// what a tokeniser looking for the end of a string or of an interpolation must not trip over
 	"q\"t", "\"", "}", "it's", "#{", "{{ }}", "%}"}
@@ -281,6 +281,12 @@ func (g *ExprGen) Gen(t Type, depth int) Expr {
 			return &EBin{ops[r.Intn(2)], g.Gen(TBool, d), g.Gen(TBool, d)}
 		case 14:
 			ops := []string{"in", "not in"}
+			if r.Intn(4) == 0 {
+				// a string (or null, or a boolean) looked for in a range
+				lo := r.Intn(3) - 1
+				needle := []Expr{g.Gen(TStr, 0), &ENull{}, &EBool{r.Intn(2) == 0}, &EStr{strconv.Itoa(lo + 1)}}[r.Intn(4)]
+				return &EBin{ops[r.Intn(2)], needle, &EGroup{&EBin{"..", &EGroup{&ENum{strconv.Itoa(lo)}}, &ENum{strconv.Itoa(lo + 2)}}}}
+			}
 			if r.Intn(3) == 0 {
 				// a hash as haystack: its values count, not its keys (needle = the key, the value, or neither)
 				k, v := g.pick([]string{"k", "abc", "b"}), g.pick([]string{"abc", "b", "z"})
